@@ -517,7 +517,7 @@ class TranslatorTarget(object):
                 out.append((label, "refuted", {"model": model, "generated": str(m.eval(got, model_completion=True)),
                                                "spec": str(m.eval(want, model_completion=True))}))
         solve("value", got != zx(want, full))
-        for kind in ("output", "abort", "addr-high-bits", "ub-index", "ub-div0"):
+        for kind in ("output", "abort", "addr-high-bits", "ub-index", "ub-div0", "ub-overflow"):
             evs = [c for (k, c, info) in it.events if k == kind]
             if evs:
                 solve(kind if kind != "output" else "no-output", z3.Or(*evs))
